@@ -48,6 +48,8 @@ def setup() -> None:
     from checks import _sim
     _g.update(_sim.bindings())
     from pymap.frozen import frozenlist
+    from pymap.parsing.commands import Commands
+    from pymap.parsing import Params
     _g.update(locals())
     _g['_sim'] = _sim
 
@@ -121,6 +123,101 @@ def build_key(g, node, ops, SymDT):
     return SK(name.encode(), SymDT(o[0]))
 
 
+def render_program(program, ops):
+    """IMAP text of a search program (items; numbers may be symbolic and are rendered digit by digit)"""
+    def num(x):
+        if isinstance(x, int):
+            return list(b'%d' % x)
+        from pysymex.symbytes import render_int
+        return list(render_int(x, 6))
+
+    def node_items(node):
+        if isinstance(node, tuple):
+            if node[0] == 'NOT':
+                return list(b'NOT ') + node_items(node[1])
+            if node[0] == 'OR':
+                return list(b'OR ') + node_items(node[1]) + [32] + node_items(node[2])
+            if node[0] == 'SET':
+                out = [40]
+                for i, n in enumerate(node[1]):
+                    out += ([32] if i else []) + node_items(n)
+                return out + [41]
+        name, inst = node
+        o = ops[inst]
+        if name in FLAG_KEYS:
+            return list(name.encode())
+        pre = list(b'UID ') if name.startswith('UID') else []
+        if name in ('SEQ1', 'UID1'):
+            return pre + num(o[0])
+        if name in ('SEQR', 'UIDR'):
+            return pre + num(o[0]) + [58] + num(o[1])
+        if name in ('SEQSTAR', 'UIDSTAR'):
+            return pre + num(o[0]) + [58, 42]
+        if name in ('SMALLER', 'LARGER'):
+            return list(name.encode()) + [32] + num(o[0])
+        raise ValueError('not rendered: %s' % name)
+    out = []
+    for i, node in enumerate(program):
+        out += ([32] if i else []) + node_items(node)
+    return out
+
+
+WIRE_LEAVES = ['SEEN', 'NEW', 'SEQ1', 'SEQR', 'SEQSTAR', 'UID1', 'UIDR', 'UIDSTAR', 'SMALLER']
+
+
+def wire_programs():
+    inst = [1000]
+
+    def leaf(name):
+        inst[0] += 1
+        return [name, inst[0]]
+    out = []
+    for name in WIRE_LEAVES:
+        out.append([leaf(name)])
+        out.append([('NOT', leaf(name))])
+    for a, b in [('SEQR', 'UIDR'), ('SEEN', 'SEQR'), ('SEQ1', 'SMALLER'), ('UID1', 'SEQSTAR')]:
+        out.append([('OR', leaf(a), leaf(b))])
+        out.append([leaf(a), leaf(b)])
+        out.append([('SET', [leaf(a), ('NOT', leaf(b))])])
+    return out
+
+
+def _harness_wire(flagsets):
+    progs = wire_programs()
+    SymD, SymDT = make_date_types()
+
+    def fn(eng):
+        from pysymex import SymUid, SymBytes, B, AND, Outcome
+        pi = eng.choose('prog', len(progs))
+        program = progs[pi]
+        base = eng.fresh_int('base', 0, 998, cls=SymUid)
+        uidcmd = eng.flip('uidcmd')
+        ops = {}
+        n = len(flagsets)
+        for name, inst in leaves(('SET', program), []):
+            if name.startswith('SEQ'):
+                ops[inst] = [eng.fresh_int('o%d_a' % inst, 1, n + 2, cls=SymUid),
+                             eng.fresh_int('o%d_b' % inst, 1, n + 2, cls=SymUid)]
+            elif name.startswith('UID'):
+                ops[inst] = [SymUid((base + eng.fresh_int('o%d_a' % inst, 1, n + 2)).t),
+                             SymUid((base + eng.fresh_int('o%d_b' % inst, 1, n + 2)).t)]
+            elif name in ('SMALLER', 'LARGER'):
+                ops[inst] = [eng.fresh_int('o%d' % inst, 0, n + 2)]
+            else:
+                ops[inst] = []
+        obligations = []
+
+        def wit(m):
+            return {'prog': pi, 'base': base.eval(m), 'uidcmd': uidcmd, 'flagsets': flagsets, 'wire': True,
+                    'ops': {str(k): [x.eval(m) for x in v] for k, v in ops.items()}}
+        err = scenario(_g, _g['_sim'], base, flagsets, program, ops, uidcmd, False,
+                       lambda c, msg='': obligations.append(B(c)), SymDT, wire=lambda items: SymBytes(items, 'memoryview'))
+        if err is not None:
+            return Outcome(False, witness=wit, info=err)
+        return Outcome(AND(*obligations), witness=wit)
+    return fn
+
+
 def _between(a, b, i):
     return ((a <= i) & (i <= b)) | ((b <= i) & (i <= a))
 
@@ -190,7 +287,7 @@ def leaves(node, out):
     return out
 
 
-def scenario(g, sim, base, flagsets, program, ops, uidcmd, hidden, check, SymDT):
+def scenario(g, sim, base, flagsets, program, ops, uidcmd, hidden, check, SymDT, wire=None):
     """flagsets: list of strings over SDFAT (+R via recent); program: list of top-level nodes"""
     import datetime as _dt
     w = sim.World(g, 2, base_uid=base, check=check)
@@ -218,9 +315,18 @@ def scenario(g, sim, base, flagsets, program, ops, uidcmd, hidden, check, SymDT)
     for seq, (m, u) in enumerate(zip(msgs, view), 1):
         m['seq'] = seq
     ctx = {'n': len(view), 'maxuid': view[-1] if view else 0}
-    keys = [build_key(g, node, ops, SymDT) for node in program]
-    cls = g['UidSearchCommand'] if uidcmd else g['SearchCommand']
-    cond, resp = w.run(0, cls(w.tag(), keys, None))
+    if wire is not None:
+        # the program goes over the wire: rendered as a command line and parsed by the real command parser
+        line = list(b'a UID SEARCH ' if uidcmd else b'a SEARCH ') + render_program(program, ops) + [13, 10]
+        cmd, rest = g['Commands']().parse(wire(line), g['Params']())
+        want_cls = g['UidSearchCommand'] if uidcmd else g['SearchCommand']
+        if type(cmd) is not want_cls:
+            return 'the rendered program did not parse as %s: %s' % (want_cls.__name__, type(cmd).__name__)
+        cond, resp = w.run(0, cmd)
+    else:
+        keys = [build_key(g, node, ops, SymDT) for node in program]
+        cls = g['UidSearchCommand'] if uidcmd else g['SearchCommand']
+        cond, resp = w.run(0, cls(w.tag(), keys, None))
     if cond != 'OK':
         return 'SEARCH answered %s' % cond
     got = None
@@ -333,6 +439,10 @@ def harnesses(tier):
         hs.append(Harness('search[flags=%s]' % ','.join(x or '-' for x in fs), _harness(progs, fs, False),
                           {'messages': len(fs), 'programs': len(progs), 'depth': depth, 'tier': tier},
                           replay='search:%s' % tier, task_budget=40))
+    hs.append(Harness('search_over_the_wire', _harness_wire(fsets[0]),
+                      {'messages': len(fsets[0]), 'programs': len(wire_programs()),
+                       'what': 'program rendered as SEARCH / UID SEARCH text with symbolic numbers, parsed by the real parser'},
+                      replay='wire', task_budget=60))
     hs.append(Harness('search_hidden_expunge', _harness(progs, fsets[0], True),
                       {'messages': len(fsets[0]), 'programs': len(progs), 'hidden_expunged': 1},
                       replay='search:%s' % tier, task_budget=40))
@@ -344,6 +454,20 @@ def replay(harness, w):
     g = _sim.bindings()
     from pymap.frozen import frozenlist
     g['frozenlist'] = frozenlist
+    if harness == 'wire':
+        from pymap.parsing.commands import Commands
+        from pymap.parsing import Params
+        g.update({'Commands': Commands, 'Params': Params})
+        SymD, SymDT = make_date_types()
+        bad = []
+        ops = {int(k): v for k, v in w['ops'].items()}
+        prog = wire_programs()[w['prog']]
+        err = scenario(g, _sim, w['base'], w['flagsets'], prog, ops, w['uidcmd'], False,
+                       lambda c, msg='': bad.append(msg or 'obligation failed') if not c else None, SymDT,
+                       wire=lambda items: memoryview(bytes(items)))
+        if err:
+            bad.append(err)
+        return {'violates': bool(bad), 'detail': bad[:3] + [repr(prog), 'uidcmd=%s' % w['uidcmd']], 'category': 'wire ' + repr(prog)[:60]}
     tier = harness.split(':')[1]
     progs = programs(2 if tier == 'quick' else 3, tier == 'quick')
     SymD, SymDT = make_date_types()
